@@ -583,7 +583,7 @@ func bigBurstScenario(hooks int, bursts []int, idle time.Duration, pool int) *vs
 		Name:      fmt.Sprintf("buffered/cap1/node-hooks%d/bursts%v/idle-%v/sync.Pool-policy%d", hooks, bursts, idle, pool),
 		Bound:     0,
 		FirstOnly: true,
-		MaxSteps:  60000000,
+		MaxSteps:  3000000,
 		Horizon:   int64(time.Minute),
 		Body: func() {
 			vsched.PoolRetain = pool
